@@ -78,7 +78,8 @@ CHECKS = {
               'states executed on the code, each step judged by TLC, content digests judged functional in the resource',
     text='The model action Add does not mention the route; TLC checks idempotence and whole-skipping of extensions without base. '
          'Every resource is supplied as xml, gz, xz, package, collection, tar/tar.gz/tar.xz of file, package and collection, '
-         'in-memory resource and another LMF version, then repeated through another route; TLC checks the successor state, '
+         'in-memory resource (also the same object again), then repeated through another route; arbitrary path trees are judged '
+         'against WnProject (which paths are refused, which resources are found); TLC checks the successor state, '
          'that repetition changes nothing (raw digest), inputs unchanged, no temporary file left, and that the stored content '
          'is a function of the resource only.',
     note='Trusted: TLC, stdlib gzip/lzma/tarfile. The order in which packages of a collection are added is unspecified.',
